@@ -195,24 +195,32 @@ func goReference(frags []Frag) []string {
 // when the crash text is exactly the recorded one: the fragments that
 // individually crash with it are dropped, the rest is still compared.
 func knownCrash(ctx *vk.Ctx, crash string, frags []Frag) ([]Frag, bool) {
-	const msg = "unexpected block size shrinkage"
-	if !strings.HasPrefix(crash, msg) {
-		return nil, false
-	}
-	var rest []Frag
-	for _, f := range frags {
-		if strings.Contains(f.Body, "fallthrough") {
-			_, src := render([]Frag{f})
-			if r := runGno(src); strings.HasPrefix(r.Crash, msg) {
-				continue
-			}
+	// both recorded crashes come from FALLTHROUGH re-using the clause block of the
+	// clause it leaves (op_exec.go): the next clause has fewer locals, or its
+	// local is captured by a closure and must live in a heap item.
+	for _, k := range []struct{ key, msg string }{
+		{"fallthrough-after-clause-local-crashes-vm", "unexpected block size shrinkage"},
+		{"fallthrough-into-clause-with-captured-local-crashes-vm", "should not happen, should be heapItemType"},
+	} {
+		if !strings.HasPrefix(crash, k.msg) {
+			continue
 		}
-		rest = append(rest, f)
+		var rest []Frag
+		for _, f := range frags {
+			if strings.Contains(f.Body, "fallthrough") {
+				_, src := render([]Frag{f})
+				if r := runGno(src); strings.HasPrefix(r.Crash, k.msg) {
+					continue
+				}
+			}
+			rest = append(rest, f)
+		}
+		if len(rest) == len(frags) || !ctx.Known(k.key) {
+			return nil, false
+		}
+		return rest, true
 	}
-	if len(rest) == len(frags) || !ctx.Known("fallthrough-after-clause-local-crashes-vm") {
-		return nil, false
-	}
-	return rest, true
+	return nil, false
 }
 
 var shiftAssignRE = regexp.MustCompile(`(?m)^(\s*)(\w+) (<<|>>)= (.*)$`)
@@ -282,8 +290,8 @@ func TestC04_Programs(t *testing.T) {
 // TestC04_GenSelfCheck is a development aid (not registered): generated
 // programs must always be accepted by the Go toolchain.
 func TestC04_GenSelfCheck(t *testing.T) {
-	if testing.Short() {
-		t.Skip()
+	if os.Getenv("C04_SELFCHECK") == "" {
+		t.Skip("set C04_SELFCHECK=1 to run the generator self-check")
 	}
 	rapid.Check(t, func(rt *rapid.T) {
 		n := rapid.IntRange(20, 60).Draw(rt, "nfrag")
